@@ -413,7 +413,7 @@ def run(ctx):
                 g = next((x for x in fs2 if x["base"] == f["base"]), f)
             except Exception:
                 g = f
-            if tuple(g["sig"]) in seen and g is not f:
+            if tuple(g["sig"]) != key and tuple(g["sig"]) in seen:
                 continue
             seen.add(tuple(g["sig"]))
             g["shrunk_from"] = {"src": src, "plan": [list(p) for p in plan]}
